@@ -290,7 +290,7 @@ type c20Req struct {
 
 // bodies with line breaks at the front, in the middle and at the end (negative "lengths"): the
 // bundled parser carries them as long as no ": " occurs
-var c20SpecialBodies = []string{"\nsecond line", "\r", "\r\n\r\npayload", "first\r\nsecond", "tail\r\n", "\n", " leading space"}
+var c20SpecialBodies = []string{"\nsecond line", "\r", "\r\n\r\npayload", "first\r\nsecond", "tail\r\n", "\n", " leading space", "{\"a\": 1}", "key: value", "first: line\r\nsecond line", "no colon-space but a:colon"}
 
 func c20Body(n int, seed int) string {
 	if n < 0 {
@@ -316,6 +316,8 @@ func (c *c20World) doHTTP(q c20Req, idx int) *c20Fail {
 		wantReply = "" // a handler may answer with an empty body
 	case 5:
 		wantReply = "two\r\nlines\r\n"
+	case 6:
+		wantReply = "{\"status\": \"ok\", \"path\": \"" + q.Path + "\"}" // ": " inside a body is not a header
 	}
 	c20Mu.Lock()
 	c20Calls = nil
